@@ -1053,6 +1053,48 @@ struct Outcome {
     fresh: String,
     /// the recovery stream (cases with a fuse): `skip` | `same:<failures injected>` | `diff:…`
     recov: String,
+    /// the other entry points against `Template::render` / `State::render_block`: `skip` | `same` | `diff:<entry>:…`
+    entry: String,
+}
+
+/// Every way into the engine renders the same composition: `render_captured` (its output),
+/// `render_captured_to` (what it wrote), `Environment::render_named_str` (a template that is not
+/// stored in the environment, same name and source) against `Template::render`; on the captured
+/// state `State::render_block_to_write` against `State::render_block`.
+fn entry_stream(env: &Environment<'static>, main: &str, src0: &str, pr: &Pr, bname: &str, res: &str) -> String {
+    let tmpl = env.get_template(main).unwrap();
+    let cap = tmpl.render_captured(context(pr));
+    let got = match &cap {
+        Ok(c) => res_of(Ok(c.output().to_string())).0,
+        Err(e) => format!("err:{}", kind_chain(e)),
+    };
+    if got != res {
+        return format!("diff:render_captured:{got}");
+    }
+    let mut buf: Vec<u8> = vec![];
+    let got = match tmpl.render_captured_to(context(pr), &mut buf) {
+        Ok(_) => res_of(Ok(String::from_utf8_lossy(&buf).into_owned())).0,
+        Err(e) => format!("err:{}", kind_chain(&e)),
+    };
+    if got != res {
+        return format!("diff:render_captured_to:{got}");
+    }
+    let got = res_of(env.render_named_str(main, src0, context(pr))).0;
+    if got != res {
+        return format!("diff:render_named_str:{got}");
+    }
+    if let Ok(mut c) = cap {
+        let a = res_of(c.with_state_mut(|state| state.render_block(bname))).0;
+        let mut buf: Vec<u8> = vec![];
+        let b = match c.with_state_mut(|state| state.render_block_to_write(bname, &mut buf)) {
+            Ok(()) => res_of(Ok(String::from_utf8_lossy(&buf).into_owned())).0,
+            Err(e) => format!("err:{}", kind_chain(&e)),
+        };
+        if a != b {
+            return format!("diff:render_block_to_write:{b}|render_block:{a}");
+        }
+    }
+    "same".into()
 }
 
 fn items_have_fuse(items: &[Item]) -> bool {
@@ -1144,6 +1186,7 @@ fn run_case(c: &Case, variant: usize) -> Outcome {
         rblock: "skip".into(),
         fresh: "skip".into(),
         recov: "skip".into(),
+        entry: "skip".into(),
     };
     let args = case_args(c);
     if !maps_canonical(&pr, &args) {
@@ -1163,7 +1206,7 @@ fn run_case(c: &Case, variant: usize) -> Outcome {
         if let Err(e) = env.get_template(&main) {
             // the main template itself cannot be loaded: every entry point reports that
             let r = format!("err:{}", kind_chain(&e));
-            return Outcome { res: r.clone(), detail: "load-error".into(), meta: "skip".into(), rblock: r.clone(), fresh: r, recov: "skip".into() };
+            return Outcome { res: r.clone(), detail: "load-error".into(), meta: "skip".into(), rblock: r.clone(), fresh: r, recov: "skip".into(), entry: "skip".into() };
         }
         let (res, detail) = res_of(env.get_template(&main).unwrap().render(context(&pr)));
         let bname = format!("b{}", cfg.blk);
@@ -1197,7 +1240,13 @@ fn run_case(c: &Case, variant: usize) -> Outcome {
             }
         };
         let recov = if case_has_fuse(c) && !has_once { recovery_stream(&env, &main, &pr) } else { "skip".to_string() };
-        Outcome { res, detail, meta, rblock, fresh, recov }
+        // a run that ends at the recursion limit depends on the depth the entry point starts at
+        let entry = if has_once || detail == "recursion-limit" {
+            "skip".to_string()
+        } else {
+            entry_stream(&env, &main, &sources[0].1, &pr, &bname, &res)
+        };
+        Outcome { res, detail, meta, rblock, fresh, recov, entry }
     });
     match r {
         Ok(x) => x,
@@ -2804,7 +2853,7 @@ fn work(tier: &str, start: usize) {
     let first = start.min(cs.len());
     for (k, c) in cs[first..].iter().enumerate() {
         let o = run_case(c, first + k);
-        writeln!(out, "{}\t{}\t{}\t{}\t{}\t{}\t{}", ser_case(c), o.res, o.detail, o.meta, o.rblock, o.fresh, o.recov).unwrap();
+        writeln!(out, "{}\t{}\t{}\t{}\t{}\t{}\t{}\t{}", ser_case(c), o.res, o.detail, o.meta, o.rblock, o.fresh, o.recov, o.entry).unwrap();
         out.flush().unwrap();
     }
 }
@@ -2824,7 +2873,7 @@ fn supervise(tier: &str) {
         if hangs >= 3 {
             // the engine hangs again and again: every further hang would cost the full timeout
             while next < total {
-                writeln!(stdout, "{}\tskipped\tskipped-after-3-hangs\tskip\tskip\tskip\tskip", lines[next]).unwrap();
+                writeln!(stdout, "{}\tskipped\tskipped-after-3-hangs\tskip\tskip\tskip\tskip\tskip", lines[next]).unwrap();
                 next += 1;
             }
             break;
@@ -2861,7 +2910,7 @@ fn supervise(tier: &str) {
                     let _ = child.wait();
                     hangs += 1;
                     if next < total {
-                        writeln!(stdout, "{}\thang\thang\tskip\tskip\tskip\tskip", lines[next]).unwrap();
+                        writeln!(stdout, "{}\thang\thang\tskip\tskip\tskip\tskip\tskip", lines[next]).unwrap();
                         next += 1;
                     }
                     break;
@@ -2870,7 +2919,7 @@ fn supervise(tier: &str) {
                     let st = child.wait().ok();
                     if next < total {
                         let code = st.map(|s| format!("{s}")).unwrap_or_default().replace([' ', '\t'], "_");
-                        writeln!(stdout, "{}\tcrash:{}\tcrash\tskip\tskip\tskip\tskip", lines[next], code).unwrap();
+                        writeln!(stdout, "{}\tcrash:{}\tcrash\tskip\tskip\tskip\tskip\tskip", lines[next], code).unwrap();
                         next += 1;
                     }
                     break;
@@ -2886,7 +2935,7 @@ fn supervise(tier: &str) {
         if restarts > 200 {
             // the engine dies on (nearly) every case: report the rest as crashed and stop
             while next < total {
-                writeln!(stdout, "{}\tcrash:too-many-restarts\tcrash\tskip\tskip\tskip\tskip", lines[next]).unwrap();
+                writeln!(stdout, "{}\tcrash:too-many-restarts\tcrash\tskip\tskip\tskip\tskip\tskip", lines[next]).unwrap();
                 next += 1;
             }
         }
@@ -2933,7 +2982,7 @@ fn main() {
                     for variant in 0..12 {
                         let o = run_case(&c, variant);
                         if variant == 0 || o.meta.starts_with("diff") {
-                            println!("{}\t{}\t{}\t{}\t{}\t{}\t{}", ser_case(&c), o.res, o.detail, o.meta, o.rblock, o.fresh, o.recov);
+                            println!("{}\t{}\t{}\t{}\t{}\t{}\t{}\t{}", ser_case(&c), o.res, o.detail, o.meta, o.rblock, o.fresh, o.recov, o.entry);
                         }
                     }
                 }
